@@ -197,6 +197,43 @@ func runC06(w *World) {
 		F.config["follow_port"] = 9851
 	}
 	os.WriteFile(filepath.Join(F.dir, "config"), []byte(mustJSON(F.config)), 0600)
+	// one run in five pauses the follower in the middle of its synchronization: the leader first
+	// gets ~150 KB more acknowledged history, the replication link stalls after the first tens of
+	// KB, the leader publishes while it is stalled, then the link is released
+	pausedSync := w.knob("pausedsync", 5) == 1
+	linkStalled, linkReleased := false, false
+	if pausedSync {
+		bp := w.program("bulk", func(r *rand.Rand) []Cmd {
+			var p []Cmd
+			for i := 0; i < 100; i++ {
+				p = append(p, Cmd{Args: []string{"SET", "kbulk", fmt.Sprintf("b%03d", i), "STRING", fmt.Sprintf("v%d-", i) + strings.Repeat("x", 1200+r.Intn(600))}})
+			}
+			return p
+		})
+		ba := w.addActor(L, "127.0.0.1:50310", bp)
+		ba.onReply = func(op *Op) { rc.hc.onReply(op, ba.end.c.name) }
+		if !w.Drain(60*time.Second, ba.done) {
+			if !w.failed() {
+				w.harnessErr("bulk history did not finish")
+			}
+			return
+		}
+		w.sndWindow = 1
+		w.stepHooks = append(w.stepHooks, func() {
+			if linkReleased {
+				return
+			}
+			w.mu.Lock()
+			for _, c := range w.conns {
+				if strings.HasPrefix(c.label, "repl:") && (linkStalled || c.a.delivered >= 6000) {
+					linkStalled = true
+					c.a.stalledUntil = w.now() + 24*time.Hour
+					c.b.stalledUntil = w.now() + 24*time.Hour
+				}
+			}
+			w.mu.Unlock()
+		})
+	}
 	F.start()
 	var fctl *observer
 	if viaCmd {
@@ -208,6 +245,38 @@ func runC06(w *World) {
 			}
 			return
 		}
+	}
+	// half of the runs: a publisher on the leader while the follower synchronizes (published
+	// messages travel over the replication connection too, between the pieces of the log; they
+	// are not part of the log and must not count as progress)
+	if pausedSync {
+		w.Drain(20*time.Second, func() bool { return linkStalled })
+	}
+	if w.knob("publisher", 2) == 1 || pausedSync {
+		pp := w.program("publisher", func(r *rand.Rand) []Cmd {
+			var p []Cmd
+			for i, n := 0, 12+r.Intn(20); i < n; i++ {
+				p = append(p, Cmd{Args: []string{"PUBLISH", []string{"news", "ch0"}[r.Intn(2)], fmt.Sprintf("pub%d-", i) + strings.Repeat("q", 200+r.Intn(4000))}})
+			}
+			return p
+		})
+		pa := w.addActor(L, "127.0.0.1:50300", pp)
+		pa.weight = 2
+		if pausedSync && linkStalled {
+			w.Drain(60*time.Second, pa.done)
+			w.Settle()
+			w.stat("probe.published_while_follower_paused_mid_sync", 1)
+		}
+	}
+	if pausedSync {
+		linkReleased = true
+		w.mu.Lock()
+		for _, c := range w.conns {
+			if strings.HasPrefix(c.label, "repl:") {
+				c.a.stalledUntil, c.b.stalledUntil = 0, 0
+			}
+		}
+		w.mu.Unlock()
 	}
 	// kConn: leader writes acknowledged when the follower's current replication
 	// connection (the one that carries the log stream) was dialed
@@ -273,6 +342,7 @@ func runC06(w *World) {
 	// cuHist[step] = the follower's internal caught-up state at that step (what the data oracle
 	// below is tied to); what the follower SAYS over its API is tied to it further down
 	var cuHist []bool
+	wasCU := false
 	var saidOps []*Op
 	safety := func() {
 		trackConn()
@@ -296,7 +366,20 @@ func runC06(w *World) {
 		saidOps = nil
 		if !cu {
 			cmpOK = false
+			wasCU = false
 			return
+		}
+		if !wasCU {
+			wasCU = true
+			if os.Getenv("VERIF_DEBUG") != "" && pausedSync {
+				fmt.Fprintf(os.Stderr, "DEBUG seed=%d step=%d first caught-up: leader aofsz=%d follower aofsz=%d faofsz=%d kConn=%d entries=%d released=%v\n", w.seed, w.step, L.inst.srv.aofsz, fi.srv.aofsz, fi.srv.faofsz, kConn, len(rc.hc.lm.entries), linkReleased)
+			}
+			if d := L.inst.srv.aofsz - fi.srv.aofsz; d > 0 {
+				w.stat("c06.caught_up_reported_with_leader_ahead", 1)
+				if d > w.stats["c06.max_bytes_behind_when_caught_up_reported"] {
+					w.stats["c06.max_bytes_behind_when_caught_up_reported"] = d
+				}
+			}
 		}
 		if fi.lock.writer != nil {
 			return
